@@ -81,14 +81,15 @@ type YStream struct {
 
 // YOpts tunes the generator.
 type YOpts struct {
-	MaxDocs     int
-	MaxDepth    int
-	MaxWidth    int
-	RootScalars bool // allow scalar roots
-	EmptyDocs   bool // allow empty and comment-only documents
-	Boundaries  bool // vary "---" / "..." / leading comment blocks
-	SimpleKeys  bool // only keys addressable as .name (C07)
-	NoDupAnchor bool // every anchor name unique in the whole stream
+	MaxDocs       int
+	MaxDepth      int
+	MaxWidth      int
+	RootScalars   bool // allow scalar roots
+	NoTaggedEmpty bool // no `!!str` / `!unit` with nothing behind it (yaml.v3 attaches neighbouring comments to such nodes in its own way)
+	EmptyDocs     bool // allow empty and comment-only documents
+	Boundaries    bool // vary "---" / "..." / leading comment blocks
+	SimpleKeys    bool // only keys addressable as .name (C07)
+	NoDupAnchor   bool // every anchor name unique in the whole stream
 }
 
 func YDefault() YOpts {
@@ -587,7 +588,7 @@ func (g *ygen) scalar(flow bool, root bool) *YN {
 		default:
 			n = &YN{Kind: YScalar, Tag: "!!str", Value: "plain text", Style: "plain", Explicit: true}
 		}
-		if r.IntN(4) == 0 && !root {
+		if r.IntN(4) == 0 && !root && !g.o.NoTaggedEmpty {
 			// a tag with nothing behind it: the empty text of that type (the empty STRING for !!str, not a null)
 			if r.IntN(2) == 0 {
 				n = &YN{Kind: YScalar, Tag: "!!str", Value: "", Style: "plain", Explicit: true}
